@@ -58,10 +58,16 @@ def budget(tier):
 def generate(run_seed, tier):
     r = core.rng(run_seed, "ops")
     toy = r.random() < 0.6
+    bname = None
     if toy:
         toys = [c for c in mcurves.toy() if c.h in (1, 3)]
         a = r.choice(toys + [c for c in toys if c.h == 3] * 3)
         b = r.choice([c for c in toys if c.name != a.name])
+        if r.random() < 0.12:
+            # curve B is curve A with another base point (k*G): same field,
+            # equation and order, yet another curve as far as keys go
+            bname = "regen:%s:%d" % (a.name, r.choice([2, 2, 3, 5]))
+            b = a
     else:
         named = ["SECP112r1", "SECP112r2", "SECP128r1", "SECP160r1",
                  "NIST192p", "BRAINPOOLP160r1", "NIST224p", "NIST256p"]
@@ -126,7 +132,7 @@ def generate(run_seed, tier):
                               fseed=r.getrandbits(32)))
         pos = r.randrange(len(ops) + 1)
         ops[pos:pos] = macro
-    return dict(A=a.name, B=b.name, init=init, ops=ops)
+    return dict(A=a.name, B=bname or b.name, init=init, ops=ops)
 
 
 class _OS(object):
@@ -152,7 +158,7 @@ def execute(prog):
     from ecdsa import keys as lk, ecdh as lecdh, der as lder, curves as lc
     from ecdsa import util as lu, ellipticcurve as le
     out = core.new_outcome()
-    mcs = {"A": mcurves.by_name(prog["A"]), "B": mcurves.by_name(prog["B"])}
+    mcs = {"A": mcurves.by_name(prog["A"]), "B": _curve_spec(prog["B"])}
     curves = {}
     toys = []
     for tag in ("A", "B"):
@@ -435,6 +441,7 @@ def execute(prog):
                             continue
                     if want:
                         m.pub = saved
+                    _preload(lk, eo, data, how, rnd, out)
                     if how == "bytes":
                         fn = lambda: eo.load_received_public_key_bytes(data)  # noqa
                     elif how == "der":
@@ -494,6 +501,7 @@ def execute(prog):
                     else:
                         want = (lk.MalformedPointError,)
                         core.bump(out["probes"], "remote_rejected")
+                    _preload(lk, eo, data, how, rnd, out)
                     fn = (lambda: eo.load_received_public_key_bytes(data)) \
                         if how == "bytes" else \
                         (lambda: eo.load_received_public_key_der(data))
@@ -639,6 +647,29 @@ class _Skip(Exception):
 
 
 _pts_cache = {}
+
+
+def _curve_spec(spec):
+    if not spec.startswith("regen:"):
+        return mcurves.by_name(spec)
+    _r, base, k = spec.split(":")
+    mc = mcurves.by_name(base)
+    G2 = ec.mul(mc, int(k), mc.G)
+    return ec.MCurve("%s_regen%s" % (base, k), mc.p, mc.a, mc.b, G2[0], G2[1],
+                     mc.n, mc.h, tuple(mc.oid) + (int(k),))
+
+
+def _preload(lk, eo, data, how, rnd, out):
+    """Another component of the same process (a logger, a cache warmer) has
+    decoded the same bytes before with validation switched off - its own
+    business; the validated load that follows must not be influenced."""
+    if how != "bytes" or eo.curve is None or rnd.random() >= 0.2:
+        return
+    core.bump(out["probes"], "unvalidated_preload")
+    try:
+        lk.VerifyingKey.from_string(data, eo.curve, validate_point=False)
+    except Exception:
+        pass
 
 
 def _pts(mc):
